@@ -460,7 +460,7 @@ class LMeasure:
 
         n1, n2 = np.cross(v1, v2), np.cross(u1, u2)
         theta_deg = np.degrees(angle(n1, n2))
-        raise theta_deg
+        return theta_deg
 
     def bif_torque_remote(self, bif: Tree.Node) -> float:
         """Bifurcation torque.
@@ -498,7 +498,7 @@ class LMeasure:
 
         n1, n2 = np.cross(v1, v2), np.cross(u1, u2)
         theta_deg = np.degrees(angle(n1, n2))
-        raise theta_deg
+        return theta_deg
 
     def _bif_vector_local(
         self, bif: Tree.Node
